@@ -591,6 +591,7 @@ func checkC01(res *Result) {
 	}
 	// R6
 	checkCodecs(res, S, "C01-R6")
+	checkC01Totality(res)
 
 	res.Functions = nElem + len(M.Types)
 	var natlang []string
